@@ -51,7 +51,7 @@ def split_args(c, op):
 STRIP_PREFIXES = [
     ("crate",), ("tokio", "sync"), ("tokio", "time"), ("tokio", "task"), ("tokio",), ("tracing",),
     ("std", "sync", "atomic"), ("std", "sync"), ("std", "any"), ("std", "time"), ("std", "collections"),
-    ("std", "mem"), ("futures",), ("dead_letter",), ("metrics", "collector"), ("metrics",),
+    ("std", "mem"), ("std", "panic"), ("futures",), ("dead_letter",), ("metrics", "collector"), ("metrics",),
     ("collector",), ("actor",), ("actor_ref",), ("error",), ("super",),
 ]
 
